@@ -40,10 +40,10 @@ Print Assumptions C12_full_refuted.
    validator returns a runtime error. For every engine. *)
 Theorem C12_unique_messages_refuted :
   forall re_ok re_match, exists o,
-    write_prop (EE [] []) 0 w_unique_obj = Ok o /\
+    write_prop (EE [] None []) 0 w_unique_obj = Ok o /\
     fvalue_typed w_unique_obj (FMany [VMsg 0]) = true /\
-    rule_sem re_match (EE [] []) w_unique_obj (FMany [VMsg 0]) /\
-    validate_sem re_ok re_match (defined_numbers (EE [] [])) o (FMany [VMsg 0]) = VError ERuntime.
+    rule_sem re_match (EE [] None []) w_unique_obj (FMany [VMsg 0]) /\
+    validate_sem re_ok re_match (defined_numbers (EE [] None [])) o (FMany [VMsg 0]) = VError ERuntime.
 Proof. exact c12_unique_messages_refuted. Qed.
 Print Assumptions C12_unique_messages_refuted.
 
@@ -216,7 +216,7 @@ Print Assumptions C12_writer_table_agrees.
    the two sides agree on an accepted and on rejected values; a multi-byte
    string is measured in code points *)
 Example C12_example :
-  let env := EE [67;95] [[82];[71]] in
+  let env := EE [67;95] None [[82];[71]] in
   let d := P [97] true false
              (PArray (Some (AR (Some 1%N) (Some 3%N) (Some true))) None
                 (TInt U32 (Some (IR (Some 1%Z) (Some 10%Z) (Some false) (Some true))) None)) [] in
